@@ -241,6 +241,50 @@ def shape_samples(rng):
     return out
 
 
+def reader_samples(rng):
+    """(okind, ikind, lkind, written JSON value, python's write(read(value))) for the reader
+    expressions recognised by harness/schema.py, on values as the writers produce them"""
+    import datetime
+    from pDESy.model.base_task import BaseTaskState, BaseTaskDependency
+    from pDESy.model.base_priority_rule import TaskPriorityRuleMode, ResourcePriorityRuleMode
+    out = []
+    fmt = "%Y-%m-%d %H:%M:%S"
+    origin = datetime.datetime(2000, 1, 1)
+    for E in (BaseTaskState, TaskPriorityRuleMode, ResourcePriorityRuleMode):
+        for m in list(E):
+            j = int(m)
+            out.append(("OInt", "IEnum", "LNone", _jv(j), _jv(int(E(j)))))
+            out.append(("OInt", "IEnumDefault", "LNone", _jv(j), _jv(int(E(j)))))
+    for _ in range(5):
+        l = [int(rng.choice(list(BaseTaskState))) for _ in range(rng.randrange(0, 5))]
+        out.append(("OListInt", "IListEnum", "LNone", _jv(l), _jv([int(x) for x in [BaseTaskState(n) for n in l]])))
+    for secs in (60.0, 1.0, 0.5, 86400.0, 90.25):
+        tok = str(datetime.timedelta(seconds=secs).total_seconds())
+        back = str(datetime.timedelta(seconds=float(tok)).total_seconds())
+        out.append(("OSecondsStr", "ISeconds", "LNone", _jv(tok), _jv(back)))
+    for sec in (0, 86399, 12345678):
+        text = (origin + datetime.timedelta(seconds=sec)).strftime(fmt)
+        back = datetime.datetime.strptime(text, fmt).strftime(fmt)
+        enc = lambda t: "(JInt (%d)%%Z)" % int((datetime.datetime.strptime(t, fmt) - origin).total_seconds())
+        out.append(("ODateStr", "IDate", "LNone", enc(text), enc(back)))
+    for v in (None, 3, 2.5, "x", [1, 2], {"n0": 1.0}, []):
+        for ki in ("IPlain", "IPlainDefault"):
+            out.append(("OPlain", ki, "LNone", _jv(v), _jv(v)))
+            out.append(("OOptPlain", ki, "LNone", _jv(v), _jv(v)))
+    objs = {"id%d" % i: _Obj("id%d" % i) for i in range(9)}
+    for _ in range(5):
+        ids = [rng.choice(sorted(objs)) for _ in range(rng.randrange(0, 4))]
+        relinked = [objs[i] for i in ids]                       # [get_x_list(ID=ID)[0] for ID in o.a]
+        out.append(("OListId", "IPlain", "LListId", _jv(ids), _jv([x.ID for x in relinked])))
+        deps = [int(rng.choice(list(BaseTaskDependency))) for _ in ids]
+        pairs = [[i, d] for i, d in zip(ids, deps)]
+        rel2 = [[objs[i], BaseTaskDependency(d)] for i, d in pairs]
+        out.append(("OListIdDep", "IPlain", "LListIdDep", _jv(pairs), _jv([(t.ID, int(d)) for t, d in rel2])))
+    out.append(("OOptId", "IPlain", "LOptId", _jv("id3"), _jv(objs["id3"].ID)))
+    out.append(("OOptId", "IPlain", "LOptId", _jv(None), _jv(None)))
+    return out
+
+
 def shape_mismatches(ctx):
     import os
     from .. import common as C
@@ -251,8 +295,12 @@ def shape_mismatches(ctx):
         f.write("From Coq Require Import List String ZArith.\nFrom PV Require Import Model.Corr Model.JsonSchema Model.JsonConcrete.\n"
                 "Import ListNotations.\nOpen Scope string_scope.\n"
                 "Eval vm_compute in (mismatches chk_out [%s]).\n" % ";\n ".join("(%s, %s, %s)" % e for e in ents))
+        rents = reader_samples(rng)
+        f.write("Eval vm_compute in (mismatches chk_rt [%s]).\n" % ";\n ".join("(%s, %s, %s, %s, %s)" % e for e in rents))
     lists, _ = C.coq_eval_nat_lists(path, cwd=ctx["work"])
-    return ["writer shape %s: Model/JsonConcrete.out disagrees with the Python expression on %s (python gives %s)" % ents[j] for j in lists[0]], len(ents)
+    bad = ["writer shape %s: Model/JsonConcrete.out disagrees with the Python expression on %s (python gives %s)" % ents[j] for j in lists[0]]
+    bad += ["reader %s/%s/%s after writer: Model/JsonConcrete disagrees with python on %s (python writes %s back)" % (rents[j][1], rents[j][2], rents[j][0], rents[j][3], rents[j][4]) for j in lists[1]]
+    return bad, len(ents) + len(rents)
 
 
 def run(ctx):
